@@ -217,6 +217,7 @@ func c03(r *lp.Run) {
 	c03CountMerge(r, rng.Fork(34))
 	c03EnumMerge(r, rng.Fork(35))
 	c03PropMerge(r, rng.Fork(36))
+	c03NMerge(r, rng.Fork(37))
 
 	scratch := os.Getenv("VERIF_SCRATCH")
 	if scratch == "" {
